@@ -41,9 +41,12 @@ type job struct {
 }
 
 func (j job) rng() *vlib.RNG {
-	p := map[string]uint64{"hist": 1, "kseq": 2, "race": 3, "fs": 4, "directed": 5, "fsk": 6}[j.Part]
+	p := map[string]uint64{"hist": 1, "kseq": 2, "race": 3, "fs": 4, "directed": 5, "fsk": 6, "stor": 7}[j.Part]
 	return vlib.NewRNG(j.Seed*1000003 + p*7919 + uint64(j.Index)*104729)
 }
+
+// storKJobs: how many of the storage-contract sequences (memstor.go) also become (K) cases, three each
+const storKJobs = 40
 
 type kcase struct {
 	index int
@@ -252,6 +255,21 @@ func runJob(c *collector, j job, methods []string, base string) (failed bool) {
 			c.violate(f, j, nil)
 			failed = true
 		}
+	case "stor":
+		cases, fails, detail := storJob(r, j.Index, base, j.Index < storKJobs, func(k string, n int) { res.Count(k, n) })
+		c.mu.Lock()
+		c.fcases = append(c.fcases, cases...)
+		c.mu.Unlock()
+		res.Eval(fmt.Sprintf("stor/%d", j.Index), true)
+		if j.Index == 0 {
+			if d := packWrapProbe(); d != "" {
+				c.knownHit("memstorage-packfile-wrap", d, j)
+			}
+		}
+		for _, f := range fails {
+			c.violate("storage contract: "+f, j, detail)
+			failed = true
+		}
 	case "fs":
 		fails, stats, notes := fileStorageChecks(r, base)
 		for k, v := range stats {
@@ -361,6 +379,16 @@ func main() {
 	for i := 0; i < nr; i++ {
 		jobs = append(jobs, job{Part: "race", Index: i, Seed: a.Seed})
 	}
+	nst := 1500
+	if a.Thorough() {
+		nst = 60000
+	}
+	// the storage-contract sequences run in a phase of their own, after the DB-level jobs: those observe background
+	// work within time windows and must not see another load than before
+	var storJobs []job
+	for i := 0; i < nst; i++ {
+		storJobs = append(storJobs, job{Part: "stor", Index: i, Seed: a.Seed})
+	}
 	// interleave the kinds so that the slow ones do not pile up at the end
 	sort.SliceStable(jobs, func(x, y int) bool { return jobs[x].Index < jobs[y].Index })
 	ch := make(chan job)
@@ -381,6 +409,23 @@ func main() {
 	close(ch)
 	wg.Wait()
 	res.Extra["harness_jobs_wall_s"] = time.Since(t0).Seconds()
+	t1 := time.Now()
+	ch2 := make(chan job)
+	for w := 0; w < 16; w++ {
+		wg.Add(1)
+		go func() {
+			defer wg.Done()
+			for j := range ch2 {
+				runJob(c, j, known, base)
+			}
+		}()
+	}
+	for _, j := range storJobs {
+		ch2 <- j
+	}
+	close(ch2)
+	wg.Wait()
+	res.Extra["storage_contract_jobs_wall_s"] = time.Since(t1).Seconds()
 	res.Extra["unreleased_iterator_after_close_observations (documented unsafe, not part of the verdict)"] = c.logs
 	res.Extra["file_storage_notes"] = c.notes
 	res.Extra["race_call_kinds_dropped_after_a_known_hang (unfixed tree only)"] = map[string]bool{
